@@ -69,7 +69,7 @@ def gen_cases(ctx):
     lengths = rng.choice([.01, .5, 1., 4.], size=nk - 1)
     kp = np.concatenate([[0.0], np.cumsum(lengths)]) + float(rng.choice([-2.0, 0.0, 100.0]))
     cyc = bool(rng.rand() < .3 and nk > 2)
-    imp = str(rng.choice(["no", "value", "tensor"]))
+    imp = str(rng.choice(["no", "value", "tensor", "both"], p=[.3, .3, .25, .15]))    # both: missing_input_value configured AND an is_missing tensor passed
     yield {"kind": kind, "units": units, "kp": [float(np.float32(v)) for v in kp], "cyclic": cyc,
            "impute": imp, "missing_output_value": (float(rng.normal()) if imp != "no" and rng.rand() < .5 else None),
            "missing_input_value": float(rng.choice([-7.0, kp[0], kp[-1] + 3.0])),
@@ -212,7 +212,7 @@ def run_case(ctx, case):
   kp = np.asarray(case["kp"], dtype=np.float64)
   nk = len(kp)
   learned = case["kind"] == "pwl_learned"
-  miv = case["missing_input_value"] if imp == "value" else None
+  miv = case["missing_input_value"] if imp == "value" else (-7.0 if imp == "both" else None)
   layer = tfl.layers.PWLCalibration(
       input_keypoints=kp.tolist(), units=units, is_cyclic=cyc, impute_missing=(imp != "no"),
       missing_input_value=miv, missing_output_value=case["missing_output_value"],
@@ -234,14 +234,14 @@ def run_case(ctx, case):
     x[3, :], labels[3] = miv, "missing_value"
     if cols > 1:
       x[11, 0], labels[11] = miv, "missing_value_one_column"
-  if imp == "tensor":
+  if imp in ("tensor", "both"):
     miss[3, :] = 1.0
     labels[3] = "flagged_missing"
     if cols > 1:
       miss[11, 0] = 1.0
       labels[11] = "flagged_missing_one_column"
   x = x.astype(np.float32)
-  inp = tf.constant(x) if imp != "tensor" else [tf.constant(x), tf.constant(miss)]
+  inp = tf.constant(x) if imp not in ("tensor", "both") else [tf.constant(x), tf.constant(miss)]
   layer(inp)
   rows = nk - (1 if cyc else 0)
   kc = case["kernel_class"]
@@ -352,7 +352,7 @@ def run_case(ctx, case):
     ismiss = np.zeros(B, dtype=bool)
     if imp == "value":
       ismiss = x[:, u if wide else 0] == np.float32(miv)
-    elif imp == "tensor":
+    elif imp in ("tensor", "both"):
       ismiss = miss[:, u if wide else 0] == 1
     if imp != "no":
       ref = np.where(ismiss, float(mo[0, u]), ref)
@@ -392,7 +392,7 @@ def run_case(ctx, case):
       feed = xk
     else:
       feed = xk if wide else xk[:, :1]
-    inp2 = tf.constant(feed) if imp != "tensor" else [tf.constant(feed), tf.zeros_like(tf.constant(feed))]
+    inp2 = tf.constant(feed) if imp not in ("tensor", "both") else [tf.constant(feed), tf.zeros_like(tf.constant(feed))]
     yk = modes.call(tf, ex, layer, inp2)
     if case["split"] and units > 1:
       yk = tf.concat(yk, axis=1)
@@ -414,7 +414,7 @@ def run_case(ctx, case):
     feed = np.repeat(xs, units, axis=1) if (learned and units > 1 and wide) or wide else xs
     if imp == "value":
       feed = feed[~np.any(feed == np.float32(miv), axis=1)]
-    inp3 = tf.constant(feed) if imp != "tensor" else [tf.constant(feed), tf.zeros_like(tf.constant(feed))]
+    inp3 = tf.constant(feed) if imp not in ("tensor", "both") else [tf.constant(feed), tf.zeros_like(tf.constant(feed))]
     ys = modes.call(tf, ex, layer, inp3)
     if case["split"] and units > 1:
       ys = tf.concat(ys, axis=1)
